@@ -182,7 +182,7 @@ Proof.
     rewrite Hinto. rewrite (run_bind s rp). unfold presolve. rewrite Ho2.
     change (procfs_flags_invalid OPEN_BASE_FLAGS) with false. cbv iota.
     rewrite (run_openat2_resolve t (ph_fd gh) (b "thread-self") (P_THREAD s) _ _ (tget_valid _ _ _ HP) eq_refl).
-    2:{ intros fl m r. cbn [sem]. rewrite HP, Nat.eqb_refl. reflexivity. }
+    2:{ intros fl m r. cbn [sem]. rewrite HP. destruct (Nat.ltb_spec (PB s) (PB s)) as [Hb|_]; [lia|]. rewrite Nat.eqb_refl. reflexivity. }
     rewrite (run_bind s rp), (run_verify _ (fresh t) (P_THREAD s) (tget_new t _)) by (unfold P_THREAD; lia).
     reflexivity. }
   rewrite Hbase. set (f1 := fresh t). set (t1 := (f1, P_THREAD s) :: t).
@@ -193,6 +193,7 @@ Proof.
   change (procfs_flags_invalid (N.lor PROCFS_READLINK_FLAGS PROCFS_OPEN_FORCED)) with false. cbv iota.
   rewrite (run_openat2_resolve t1 f1 sub (P_LINK s o) _ _ (tget_valid _ _ _ Hf1) Hsubnul).
   2:{ intros fl m r. cbn [sem]. rewrite Hf1.
+      destruct (Nat.ltb_spec (P_THREAD s) (PB s)) as [Hb|_]; [unfold P_THREAD in Hb; lia|].
       assert (E1 : Nat.eqb (P_THREAD s) (PB s) = false) by (apply Nat.eqb_neq; unfold P_THREAD; lia).
       rewrite E1, Nat.eqb_refl. unfold sub. rewrite parse_fd_dec, Z2N.id by exact Hpos.
       rewrite Hfd1. reflexivity. }
